@@ -195,6 +195,21 @@ CHECKS["C19"] = dict(
     technique="TLC-enumerated record/token-level cases rendered to bytes and fed to the real readers in a child process",
     engine="tlc")
 
+CHECKS["C09"] = dict(
+    category="other",
+    text="Hybrid: the oracle is the determinacy result TLC establishes for the recorded process networks (C03: unique terminal state "
+         "under all interleavings, so a pipeline's output is a function of configuration and input only). On the real code, for every "
+         "catalogued indicator, strategy and compound x configurations, a second Compute call after a warm call on other data, two "
+         "concurrent Compute calls on different inputs and a second Report render on the SAME Go object are compared bit for bit with "
+         "a fresh instance; the wiring recorded for the second call must be isomorphic to and channel-disjoint from the first; the "
+         "same requests run under the Go race detector and a race report inside library code is a violation. TLA+ does not see Go "
+         "memory, hence category other: the model contributes expected behaviour and schedules, the race detector the detection.",
+    design_ref="DESIGN.md 5 (C09), 6",
+    note="Trusted: the Go race detector, the harness's reuse drivers. Races are only found on schedules that actually run (sequential "
+         "reuse, two concurrent calls).",
+    technique="TLC determinacy as oracle + reuse/concurrency replays on one Go object + Go race detector",
+    engine="tlc")
+
 NOT_APPLICABLE = {
     "C15": "numeric range invariants of float formulas: no discrete state or transition for a TLA+ model to decide (DESIGN.md 6)",
     "C18": "relation between two float executions (homogeneity): numeric, not a state machine TLC can check (DESIGN.md 6)",
